@@ -1079,7 +1079,18 @@ func (w *world) collect(sc *jBScenario) {
 			sc.SignOK = false
 			return
 		}
-		for _, sub := range subsetsAtLeast(okHonest, w.t) {
+		subsets := [][]int{}
+		if len(okHonest) <= 8 {
+			subsets = subsetsAtLeast(okHonest, w.t)
+		} else {
+			// many parties: the large signer sets are the interesting ones (products of evaluation points beyond 2^63)
+			all := append([]int{}, okHonest...)
+			subsets = append(subsets, all, all[1:], all[:w.t], all[len(all)-w.t:])
+			if len(all) >= 21 && w.t <= 21 {
+				subsets = append(subsets, all[:21], all[len(all)-21:])
+			}
+		}
+		for _, sub := range subsets {
 			sc.SignSets++
 			var sigs [][]byte
 			var signers []uint16
@@ -1391,6 +1402,13 @@ func runBackend(r *prng, thorough bool, only string) {
 				}
 			}
 		}
+	}
+	if thorough && only != "deviant" {
+		// more than 20 parties: every honest party completes and large signer sets verify (model replay skipped: monitors only)
+		id++
+		emit(runBScenario(id, "bls", 22, 2, nil, r.next()))
+		id++
+		emit(runBScenario(id, "bls", 22, 21, nil, r.next()))
 	}
 	// schedules without per-link FIFO, directed and random, both packages
 	fam := [][2]int{{3, 2}, {4, 3}}
